@@ -35,7 +35,11 @@ def tests(wt):
 
 def demo(wt, sdir):
     exe = os.path.join(wt, "_demo")
-    rc, out = sh("g++ -std=c++17 -I%s/include %s/demo.cpp -L%s/_build -lnitro-options -lnitro-env -ldl -pthread -o %s" % (wt, sdir, wt, exe))
+    head = open(os.path.join(sdir, "demo.cpp")).read(600)
+    m = re.search(r"-DBUILD_LIB demo\.cpp -o (\S+)", head)
+    if m:   # the demo doubles as its own test library
+        sh("g++ -std=c++17 -shared -fPIC -DBUILD_LIB %s/demo.cpp -o %s/%s" % (sdir, wt, m.group(1)))
+    rc, out = sh("g++ -std=c++17 -I%s/include %s/demo.cpp %s/_build/libnitro-options.a %s/_build/libnitro-env.a -ldl -pthread -o %s" % (wt, sdir, wt, wt, exe))
     if rc != 0:
         return None, out[-1500:]
     rc, out = sh("timeout 120 " + exe, cwd=wt)
